@@ -65,6 +65,22 @@ def _run_success_batch(probes):
                              P.render(pr["stmts"]).text, pr))
         if o.code == 0 or stopped_at is None:
             break
+        if stopped_at == 0:
+            # nothing ran at all (the whole script was rejected): judge the probes one by one
+            if len(todo) == 1:
+                k, pr = todo[0]
+                viol.append(("rejected/" + pr["tag"], "%s must succeed but the script was rejected: %s" % (pr["what"], o.err.decode("utf-8", "replace")[:200]),
+                             P.render(pr["stmts"]).text, pr))
+                break
+            for item in todo:
+                v2, n2, r2, s2, inc2 = _run_success_batch([item])
+                viol += v2
+                nobs += n2
+                runs += r2
+                shas |= s2
+                if len(viol) > 50:
+                    break
+            break
         todo = todo[stopped_at:]
     return viol, nobs, runs, shas, None
 
